@@ -735,7 +735,7 @@ fn check(env: &Env, op: &Op, obsd: &Observed, phase: &str, faults: bool) {
                     }
                 }
                 Some(c) => {
-                    if w.result.is_ok() || w.calls_after_error > 0 || !golden.starts_with(acc) || w.result.err() != w.hard_error_kind {
+                    if w.result.is_ok() || !golden.starts_with(acc) || w.result.err() != w.hard_error_kind {
                         sim::violation("render-hard-fault-mishandled", &key, phase, format!("hard fault at call {c} ({:?}): result {:?}, calls after error {}, prefix {}", w.hard_error_kind, w.result, w.calls_after_error, golden.starts_with(acc)));
                     }
                 }
